@@ -95,15 +95,17 @@ MENUS = {
                                     ("rof", "g12", [("ja", 3, 0), ("jb", 5, 7)]),
                                     ("const", "k0", 0x1234), ("const", "k1", 7)], None, None, None)],
                    rams=[], roms=[]),
-    # CSR-mapped memories, fixed CSR locations (csr_map and add_csr), interrupts (fixed and automatic numbers)
+    # CSR-mapped memories (8-bit rw, 32-bit read-only, 32-bit rw = wider than an 8-bit CSR bus), fixed CSR locations (csr_map and add_csr), interrupts (fixed and automatic numbers)
     "memfix": dict(ctrl=True, timer=True, timer_irq=True,
-                   periphs=[("pc", [("mem", "buf", 8, 12, False), ("mem", "lut", 32, 6, True), ("st", "r16", 16), ("ro", "s16", 16)], 5, "map", None),
+                   periphs=[("pc", [("mem", "buf", 8, 12, False), ("mem", "lut", 32, 6, True), ("mem", "wbuf", 32, 4, False),
+                                    ("st", "r16", 16), ("ro", "s16", 16)], 5, "map", None),
                             ("pd", [("st", "r24", 24), ("ro", "s40", 40), ("ev", ["e0", "e1"])], 3, "add", 7),
                             ("pe", [("st", "r8", 8), ("ev", ["e0"])], None, None, "auto")],
                    rams=[], roms=[]),
     # nothing at CSR location 0: every bank has a fixed location > 0
-    "loc0free": dict(ctrl=False, timer=True, timer_irq=True, timer_loc=2, extra_map={"pf_buf": 7},
-                     periphs=[("pf", [("st", "r32", 32), ("st", "r48", 48), ("ro", "s8", 8), ("mem", "buf", 8, 8, False)], 6, "map", None),
+    "loc0free": dict(ctrl=False, timer=True, timer_irq=True, timer_loc=2, extra_map={"pf_buf": 7, "pf_hbuf": 5},
+                     periphs=[("pf", [("st", "r32", 32), ("st", "r48", 48), ("ro", "s8", 8), ("mem", "buf", 8, 8, False),
+                                      ("mem", "hbuf", 16, 4, False)], 6, "map", None),
                               ("pg", [("st", "r12", 12), ("ev", ["e0"])], 4, "add", 3)],
                      rams=[], roms=[]),
     # several instances, adjacent / non power-of-two bus memories, an initialised ROM (end-to-end image check)
